@@ -168,9 +168,10 @@ type Trace struct {
 	FlushStorm     []string       `json:"flush_storm,omitempty"`
 	Flushes        []FlushEnter   `json:"flushes,omitempty"`
 	HookLog        []string       `json:"hook_log,omitempty"`
-	Net            map[string]int `json:"net,omitempty"`        // cluster mode: message counters of the harness network
-	Arrivals       []Arrival      `json:"arrivals,omitempty"`   // cluster mode: gossip deliveries of notification-log entries
-	LogWrites      []LogWrite     `json:"log_writes,omitempty"` // cluster mode: notification-log entries written locally by each instance
+	Net            map[string]int `json:"net,omitempty"`            // cluster mode: message counters of the harness network
+	PushPullGaps   []string       `json:"push_pull_gaps,omitempty"` // cluster mode: entries a full-state exchange failed to hand over
+	Arrivals       []Arrival      `json:"arrivals,omitempty"`       // cluster mode: gossip deliveries of notification-log entries
+	LogWrites      []LogWrite     `json:"log_writes,omitempty"`     // cluster mode: notification-log entries written locally by each instance
 }
 
 // FlushEnter is recorded by the flush.enter hook point.
